@@ -274,6 +274,40 @@ def check(prop, tier):
                            "scenario": ev if len(s) < 30000 else {k: x for k, x in ev.items() if len(json.dumps(x)) < 2000}}
                 brief = {k: ev[k] for k in ("how", "tag", "max", "endings", "states") if k in ev}
                 v.violation(f"{why} {json.dumps(brief)[:300]} [line {line} of {os.path.basename(f)}]", save_replay(prop, payload))
+        if mode in ("limit", "shutdown") and not v.violations:
+            # mechanism level: the merged timeline of client actions and server hook events must be a
+            # behaviour of Server.tla (TraceServer.tla); a rejection is drift, not an alarm
+            mcfg = write_cfg(f"traceserver_{tag}.cfg", """SPECIFICATION TSpec
+CONSTANTS
+  Conns <- TrConns
+  MaxConn = 1
+  Keys = {"k"}
+  Vals = {"a"}
+  MaxReq = 1000
+  Hostile <- TrConns
+POSTCONDITION Accepted
+CHECK_DEADLOCK FALSE
+""")
+
+            def mech(f):
+                return f, tlc("TraceServer.tla", mcfg, workers=1, env={"TRACE": f, "JAVA_TOOL_OPTIONS": JAVA_OPTS_TRACE},
+                              timeout=600, xmx="3g", metatag=f"trsv-{prop}-{os.path.basename(f)}-{os.getpid()}")
+            okn, drift = 0, []
+            for f, r in parallel(mech, files, n=NCPU):
+                v.cov["transitions"] += r.generated
+                v.cov["states"] += r.distinct
+                if r.ok:
+                    okn += 1
+                    continue
+                m = re.search(r"SERVER MECHANISM DRIFT.*", r.out, re.S)
+                if not m and not r.postcondition_failed:
+                    raise ToolError(f"server mechanism validation of {f} failed in the tooling: {r.out[-2500:]}")
+                drift.append({"file": os.path.basename(f), "first_unexplained": " ".join((m.group(0) if m else "?").split())[:400]})
+            v.cov["mechanism_traces_accepted"] = okn
+            if drift:
+                v.cov["model_drift"] = True
+                v.cov["mechanism_drift"] = drift[:5]
+                log(f"model drift: {len(drift)} trace files are not behaviours of Server.tla step by step (not an alarm): {drift[0]}")
         v.cov["traces_validated_against_impl"] = nscen
         v.cov["scenario_inputs"] = len(items)
         v.cov["driver"] = {"scenarios_run": sum(s.get("runs", 0) for s in sums)}
